@@ -141,7 +141,7 @@ fn c03_hp_pubrec_match() {
 
 // @harness props=C03 tier=quick layer=L2
 // @harness funcs="SessionData::handle_packet (PubRec stale)"
-// @harness sym="quota; packet id 9 (already awaiting PUBCOMP) or 100 (unknown)" bounds="same shape"
+// @harness sym="reason code (all 256), quota; packet id 9 (already awaiting PUBCOMP) or 100 (unknown)" bounds="same shape"
 #[kani::proof]
 #[kani::unwind(6)]
 fn c03_hp_pubrec_stale() {
@@ -152,12 +152,19 @@ fn c03_hp_pubrec_stale() {
 fn pubrec_stale_body(id: u16) {
     let mut tx: [u8; 16] = kani::any();
     let (mut data, mut rt) = setup(&mut tx);
+    kani::assume(inv(&data, &rt));
     let q0 = rt.send_quota;
-    let r = data.handle_packet(&mut rt, ReceivedPacket::PubRec(PubRec { packet_id: id, reason: ReasonCode::Success.into() }));
-    assert!(matches!(r, Ok(false)), "C03: stale PUBREC is internal");
+    // a stale / duplicate PUBREC may carry any reason code, failing ones included
+    let (c, code) = any_code();
+    let r = data.handle_packet(&mut rt, ReceivedPacket::PubRec(PubRec { packet_id: id, reason: code.into() }));
+    if known_success(c) || id == 100 {
+        assert!(matches!(r, Ok(false)), "C03: stale PUBREC is internal");
+    }
     assert!(data.outbound.has_retained(3) && data.outbound.has_retained(4) && data.outbound.has_retained(5), "C03: stale PUBREC removes nothing");
-    assert!(data.outbound.pending_release_len() == 1 && data.outbound.has_pending_release(9), "C03: stale PUBREC queues no second PUBREL");
-    assert!(rt.send_quota == q0, "C06: stale PUBREC returns no quota");
+    assert!(data.outbound.pending_release_len() == 1 && data.outbound.has_pending_release(9), "C03: stale PUBREC queues no second PUBREL and ends no exchange");
+    assert!(rt.send_quota == q0, "C06: a stale PUBREC (whatever its reason code) returns no quota: the exchange it names is still unresolved or unknown");
+    assert!(inv(&data, &rt), "C06/inv after a stale PUBREC");
+    kani::cover!(c >= 0x80);
 }
 
 // @harness props=C03,C06,C18 tier=quick layer=L2
